@@ -36,11 +36,15 @@ pub fn undecided_name(name: &str) -> bool {
     eligible(name) && name.to_lowercase().contains(".t.sol")
 }
 
-const ELIGIBLE_NAMES: &[&str] = &["Token.sol", "a.sol", ".sol", "a.b.sol", "\u{540d}\u{524d}.sol", "a b.sol", "-x.sol", "Vault.sol", "t.sol", "at.sol", "x.tsol.sol", "UPPER.sol", "sol.sol", "a.t.x.sol"];
-const TEST_NAMES: &[&str] = &["a.t.sol", "A.T.sol", "x.T.sol", "Token.t.sol", ".t.sol", "b.t.SOL.t.sol"];
+const ELIGIBLE_NAMES: &[&str] = &[
+    "Token.sol", "a.sol", ".sol", "a.b.sol", "\u{540d}\u{524d}.sol", "a b.sol", "-x.sol", "Vault.sol", "t.sol", "at.sol", "x.tsol.sol", "UPPER.sol", "sol.sol", "a.t.x.sol",
+    // letters whose upper / lower case forms are other letters or longer strings (long s, dotted capital I, sharp s, Kelvin sign)
+    "Vault.t.\u{17f}ol.sol", "\u{130}.sol", "stra\u{df}e.sol", "\u{212a}.t.sol.x.sol",
+];
+const TEST_NAMES: &[&str] = &["a.t.sol", "A.T.sol", "x.T.sol", "Token.t.sol", ".t.sol", "b.t.SOL.t.sol", "\u{130}.T.sol"];
 const OTHER_NAMES: &[&str] = &[
     "a.SOL", "a.Sol", "a.sol.txt", "a.solx", "asol", "a.sol~", "README", ".gitignore", "solstat_report.md", "a.t.Sol", "sol", "a.sol.bak", "Makefile",
-    "notes.md", "a.sol ", "x.json",
+    "notes.md", "a.sol ", "x.json", "a.\u{17f}ol", "a.t.\u{17f}ol", "A.SO\u{212a}",
 ];
 const DIR_NAMES: &[&str] = &["sub", "lib", "x.sol", "x.t.sol", "node_modules", "interfaces", "a", "\u{76ee}\u{5f55}"];
 
@@ -52,6 +56,7 @@ pub const POOL: &[&str] = &[
     "pragma solidity ^0.6.0 ;\nlibrary L {\nfunction add ( uint256 a , uint256 b ) internal pure returns ( uint256 ) { return a + b ; }\n}\n",
     "contract NoPragma { function f ( address t ) public { t . approve ( t , 1 ) ; } }\n",
     "pragma solidity 0.8.4 ;\ninterface I { function f ( ) external ; }\n",
+    "pragma solidity 0.7.6 ;\nlibrary SafeMath { function add ( uint256 a , uint256 b ) internal pure returns ( uint256 ) { return a + b ; } }\npragma solidity 0.8.13 ;\ncontract Flat {\nusing SafeMath for uint256 ;\nfunction f ( uint256 a ) public returns ( uint256 ) {\nrequire ( a > 0 , \"a message that is longer than thirty-two bytes in total\" ) ;\nreturn a . add ( 1 ) ;\n}\n}\n",
     "pragma solidity 0.8.10 ;\ncontract M {\nuint256 public a1 ;\nuint256 public a2 ;\nuint256 public a3 ;\nuint256 constant K1 = 1 ;\nuint256 constant K2 = 2 ;\nfunction g (\nstring memory s ,\nuint256 [ ] memory arr ,\nbytes memory data ,\naddress [ ] memory who\n) external returns ( uint256 ) {\nreturn arr . length + who . length + bytes ( s ) . length + data . length ;\n}\n}\n",
 ];
 
@@ -86,7 +91,8 @@ fn program_text_inner(t: &mut Tape) -> String {
     if t.chance(150) {
         t.pick(POOL).to_string()
     } else {
-        let cfg = GenCfg { max_items: 2, max_members: 4, max_stmts: 3, max_depth: 4, plant: 140, pragma_mode: 0, ..Default::default() };
+        let focus = t.below(4) as u8;
+        let cfg = GenCfg { max_items: 2, max_members: 4, max_stmts: 3, max_depth: 4, plant: 140, pragma_mode: 0, focus, ..Default::default() };
         let p = program::gen_program(t, &cfg);
         if crate::parse(&p).is_some() {
             p
